@@ -251,7 +251,8 @@ Definition good_tag (t : str) : Prop := t <> [] /\ ~ In c_comma t /\ ~ In c_pipe
    The lexer's slack beyond the documented grammar is only in what an ignored field may be:
    it is recognised by its FIRST byte alone, so an EMPTY field takes the '|' that ends it as that
    first byte and skips the field after it; and an empty field may end the line (trailing '|').
-   Both are "other" fields of the same rendering function under a weaker side condition:
+   Both are "other" fields of the same rendering function under a weaker side condition
+   (nothing else differs: results are [expected_metric] / [expected_event] as before):
    [AOther (c_pipe :: g)] is an empty field followed by the swallowed field [g], [AOther []] is
    the empty field after a trailing '|' (last position only). *)
 
@@ -278,21 +279,19 @@ Fixpoint wf_attrs' (l : list attr) : Prop :=
 Definition render_metric' (raw val : str) (ty : tytok) (attrs : list attr) : str :=
   render_metric raw val ty attrs.
 
-(* events: the numeral after "d:" is accumulated in uint64 and the overflow test [n < v] of
-   lexUint misses some wrap-arounds, so what the date "is" is this accumulation *)
-Definition wrap_step (v b : N) : N := (v * 10 + (b - c_0)) mod two64.
-
+(* numerals: lexUint's accumulation with its overflow test (value > (MaxUint64 - d) / 10 before
+   multiplying); [None] = overflow.  On digit strings this is [digit_value] with the bound
+   2^64 - 1 (Proofs/LexerGrammarExactEvent.v [uint_acc_spec]). *)
 Fixpoint uint_acc (v : N) (ds : str) : option N :=
   match ds with
   | [] => Some v
-  | b :: r => let n := wrap_step v b in if n <? v then None else uint_acc n r
+  | b :: r => let d := b - c_0 in
+              if (max_uint64 - d) / 10 <? v then None else uint_acc (v * 10 + d) r
   end.
-
-Definition date_value (ds : str) : N := match uint_acc 0 ds with Some v => v | None => 0 end.
 
 Definition wf_eattr' (last : bool) (a : eattr) : Prop :=
   match a with
-  | EADate ds => is_number ds /\ exists v, uint_acc 0 ds = Some v /\ v <= max_int64
+  | EADate ds => is_number ds /\ digit_value ds <= max_int64
   | EAHost s | EAKey s | EASrc s => ~ In c_pipe s
   | EAPri _ | EAAlert _ => True
   | EATags ts => Forall wf_tag ts
@@ -308,15 +307,6 @@ Fixpoint wf_eattrs' (l : list eattr) : Prop :=
   | [] => True
   | a :: r => wf_eattr' (is_nil r) a /\ wf_eattrs' r
   end.
-
-Definition apply_eattr' (e : event) (a : eattr) : event :=
-  match a with
-  | EADate ds => set_date_z e (Z.of_N (date_value ds))
-  | _ => apply_eattr e a
-  end.
-
-Definition expected_event' (title text : str) (attrs : list eattr) : event :=
-  with_tags (fold_left apply_eattr' attrs (empty_event title (unescape text))) (eattrs_tags attrs).
 
 Definition render_event' (dt dx title text : str) (attrs : list eattr) : str :=
   render_event_digits dt dx title text attrs.
